@@ -28,8 +28,8 @@ func RunLeechers(c *sim.Ctx) {
 	rememberPeer := knob("ongoing_peer_remembered_after_session", 0, 1) == 1 // application variant: OngoingSessionPeer keeps naming the last session's peer
 	yieldInCallbacks := knob("callbacks_yield_the_processor", 0, 1) == 1     // application callbacks call runtime.Gosched(): other goroutines run while the leecher is inside its critical section
 	nOps := knob("ops", 1, 24)
-	c.ProbeDecl("request_chunks_called", "window_full", "tick_while_suspended", "done_reported", "chunk_dropped_window_overflow",
-		"session_started", "unregister_of_session_peer", "terminate_with_session", "session_terminated_by_flag", "unregister_concurrent_with_tick")
+	c.ProbeDecl("request_chunks_called", "window_full", "tick_while_suspended", "done_reported", "chunk_dropped_window_overflow", "chunk_processed_out_of_order",
+		"session_started", "unregister_of_session_peer", "terminate_with_session", "session_terminated_by_flag", "unregister_concurrent_with_tick", "terminate_concurrent_with_tick")
 
 	var plan []stim
 	at := time.Duration(0)
@@ -39,10 +39,10 @@ func RunLeechers(c *sim.Ctx) {
 		}
 		at = uniqueAt(at, time.Duration(c.Int("gap_ms", 0, int(3*recheck/time.Millisecond)))*time.Millisecond, len(c.Trace.Ops))
 		if which == 0 {
-			k := []string{"arrive", "process", "suspend", "resume", "done"}[c.PickW("op", []int{10, 10, 2, 3, 1})]
+			k := []string{"arrive", "process", "suspend", "resume", "done", "process_newest"}[c.PickW("op", []int{10, 8, 2, 3, 1, 3})]
 			return sim.Op{K: k, A: []int64{int64(at), int64(c.Pick("n", 3) + 1)}}, true
 		}
-		k := []string{"register", "unregister", "terminate", "flag_terminate_session", "clear_flag", "unregister_at_next_tick"}[c.PickW("op", []int{8, 6, 1, 2, 2, 3})]
+		k := []string{"register", "unregister", "terminate", "flag_terminate_session", "clear_flag", "unregister_at_next_tick", "terminate_at_next_tick"}[c.PickW("op", []int{8, 6, 1, 2, 2, 3, 1})]
 		return sim.Op{K: k, A: []int64{int64(at), int64(c.Pick("peer", nPeers))}}, true
 	}
 	for {
@@ -72,13 +72,14 @@ func RunLeechers(c *sim.Ctx) {
 			doneSince := time.Duration(-1) // instant the application's download became done
 			lastSuspendAnswer := false
 			doneAnswered := false
-			arrived := 0   // chunk ids 0..arrived-1 were handed to the leecher
-			processed := 0 // chunk ids 0..processed-1 are processed by the application
+			arrived := 0                   // chunk ids 0..arrived-1 were handed to the leecher
+			processedSet := map[int]bool{} // arrived chunk ids the application has processed (any order)
+			nProcessed := 0
 			requested := 0
 			l := basepeerleecher.New(&wg, basepeerleecher.EpochDownloaderConfig{RecheckInterval: recheck, DefaultChunkItemsNum: 10, DefaultChunkItemsSize: 1000, ParallelChunksDownload: parallel},
 				basepeerleecher.EpochDownloaderCallbacks{
 					IsProcessed: func(id interface{}) (r bool) {
-						ml.do(func() { r = id.(int) < processed })
+						ml.do(func() { r = processedSet[id.(int)] })
 						return r
 					},
 					RequestChunks: func(maxNum uint32, maxSize uint64, maxChunks uint32) error {
@@ -97,10 +98,7 @@ func RunLeechers(c *sim.Ctx) {
 							// chunk) came after that, and acting on it includes asking whether the download is done
 							rec.violation("leecher-done", "leecher-done/request-while-done", "t=%v: RequestChunks(%d) although the download has been done (Done() answers true) since %v", now(), maxChunks, doneSince)
 						}
-						arrivedAndProcessed := processed
-						if arrived < arrivedAndProcessed {
-							arrivedAndProcessed = arrived
-						}
+						arrivedAndProcessed := nProcessed
 						if requested-arrivedAndProcessed > parallel {
 							rec.violation("leecher-window", "leecher-window", "t=%v: %d chunks requested in total, %d arrived and processed: %d outstanding, the parallelism limit is %d", now(), requested, arrivedAndProcessed, requested-arrivedAndProcessed, parallel)
 						}
@@ -142,7 +140,7 @@ func RunLeechers(c *sim.Ctx) {
 						}
 						id := 0
 						ml.do(func() {
-							if arrived-processed >= 2*parallel {
+							if arrived-nProcessed >= 2*parallel {
 								probes.inc("chunk_dropped_window_overflow")
 							}
 							// counted before the hand-over: the leecher may act on the chunk while the call is still in progress
@@ -153,9 +151,27 @@ func RunLeechers(c *sim.Ctx) {
 					}
 				case "process":
 					ml.do(func() {
-						processed += n
-						if processed > arrived {
-							processed = arrived
+						// the oldest n unprocessed chunks, in arrival order
+						for id := 0; id < arrived && n > 0; id++ {
+							if !processedSet[id] {
+								processedSet[id] = true
+								nProcessed++
+								n--
+							}
+						}
+					})
+				case "process_newest":
+					ml.do(func() {
+						// out of order: the n-th newest unprocessed chunk is finished before older ones
+						for id := arrived - 1; id >= 0; id-- {
+							if !processedSet[id] {
+								if n--; n == 0 {
+									processedSet[id] = true
+									nProcessed++
+									probes.inc("chunk_processed_out_of_order")
+									break
+								}
+							}
 						}
 					})
 				case "suspend":
@@ -190,6 +206,7 @@ func RunLeechers(c *sim.Ctx) {
 			lastPeer := ""
 			flag := false
 			terminated := false
+			terminating := false              // a Terminate call on another goroutine is in progress
 			registered := map[string]bool{}   // as the application sees it: RegisterPeer returned / UnregisterPeer returned
 			unregistering := map[string]int{} // UnregisterPeer calls in progress on another goroutine
 			var l *basestreamleecher.BaseLeecher
@@ -235,6 +252,9 @@ func RunLeechers(c *sim.Ctx) {
 					lastPeer = ongoing
 				},
 				TerminateSession: func() {
+					if yieldInCallbacks {
+						runtime.Gosched() // winding a session down takes a moment: other goroutines run meanwhile
+					}
 					ml.do(func() {
 						if ongoing != "" && flag {
 							probes.inc("session_terminated_by_flag")
@@ -309,10 +329,36 @@ func RunLeechers(c *sim.Ctx) {
 							}
 						})
 					}()
+				case "terminate_at_next_tick":
+					// Terminate from a second goroutine at the very instant of a tick
+					tick := (t/recheck + 1) * recheck
+					async.Add(1)
+					go func() {
+						defer async.Done()
+						time.Sleep(tick - now())
+						first := false
+						ml.do(func() {
+							if !terminated && !terminating {
+								first = true
+								terminating = true
+								probes.inc("terminate_concurrent_with_tick")
+							}
+						})
+						if !first {
+							return
+						}
+						l.Terminate()
+						ml.do(func() {
+							terminated = true
+							if ongoing != "" {
+								rec.violation("leecher-session", "leecher-session/alive-after-terminate", "t=%v: Terminate, called concurrently with a tick, returned but a session with %s is running", now(), ongoing)
+							}
+						})
+					}()
 				case "terminate":
 					first := false
 					ml.do(func() {
-						if !terminated {
+						if !terminated && !terminating {
 							first = true
 							if ongoing != "" {
 								probes.inc("terminate_with_session")
